@@ -192,7 +192,7 @@ Chunk(acked) ==
               /\ strm' = IF acked THEN NoStrm ELSE strm
               /\ UNCHANGED <<llog, lsnap, nextHid, fup>>
               /\ Step([op |-> "chunk", snap |-> strm.idx, k |-> strm.k, c |-> c, done |-> TRUE, acked |-> acked,
-                       last_log |-> flast, obs |-> Obs])
+                       last_log |-> flast, over_echo |-> (ftmp # {}), obs |-> Obs])
          ELSE /\ ffile' = written /\ sess' = [offset |-> pos + 1]
               /\ strm' = IF acked THEN [strm EXCEPT !.next = c + 1] ELSE strm
               /\ UNCHANGED <<llog, lsnap, nextHid, fup, flast, fsm, fmem, finst, ftmp>>
@@ -207,7 +207,7 @@ DupFinal(acked) ==
     /\ strm' = IF acked THEN NoStrm ELSE strm
     /\ UNCHANGED <<llog, lsnap, nextHid, fup, flast, fsm, fmem, ffile, sess, ftmp>>
     /\ Step([op |-> "chunk", snap |-> strm.idx, k |-> strm.k, c |-> strm.k + 1, done |-> TRUE, acked |-> acked,
-             last_log |-> flast, obs |-> Obs])
+             last_log |-> flast, over_echo |-> FALSE, obs |-> Obs])
 
 \* the leader's replication stream is torn down (leader restart, leadership change): a later stream starts over
 StreamAbort ==
@@ -248,7 +248,14 @@ InstalledIntact == IF finst = NoSnap THEN TRUE ELSE Intact(finst.file, finst.idx
 FollowerServesPrefix == fup => (Unecho = StateAt(flast) /\ fmem = MemAt(flast))
 \* (restart is covered by FStart defining fsm' from the contract and InstalledIntact making that possible)
 
+\* thin-case generation: an install completes while the follower holds an echoed (temporary) value - exported from
+\* the COMPLETE state graph (one behaviour per distinct state that qualifies); random schedules rarely get there
+ThinEcho == Len(hist) > 0 /\ hist[Len(hist)].op = "chunk" /\ hist[Len(hist)].done /\ hist[Len(hist)].over_echo
+ExportThinEcho == ThinEcho => PrintT(<<"REPLAY", ToJson([steps |-> hist])>>)
+
 Done == ops = MaxOps
 ExportBehaviour == Done => PrintT(<<"REPLAY", ToJson([steps |-> hist])>>)
 View == <<llog, lsnap, fup, flast, fsm, fmem, finst, ffile, sess, strm, ftmp>>
+\* (for the generation run: a state reached by a thin step must not be merged with the same state reached otherwise)
+ViewGen == <<View, ThinEcho>>
 =============================================================================
